@@ -1,0 +1,49 @@
+//go:build verif
+
+package errors
+
+// Contracts for govc (see /verif/DESIGN.md). Comment-only file: no code, compiled only with -tags verif.
+// isVE(e): e is a non-nil *ValidationError; errType/errFailure/errUrl/errDescr/errCause read its (immutable) fields.
+
+//@ func Error
+//@   ensures result != nil && fresh(result) && isVE(result) && errType(result) == errorType && errFailure(result) == failure
+//@           && errUrl(result) == url && errCause(result) == nil && errDescr(result) == ""   [C15]
+
+//@ func ErrorWithDescr
+//@   ensures result != nil && fresh(result) && isVE(result) && errType(result) == errorType && errFailure(result) == failure
+//@           && errUrl(result) == url && errCause(result) == nil && errDescr(result) == descr   [C15]
+
+//@ func Wrap
+//@   ensures result != nil && fresh(result) && isVE(result) && errType(result) == errorType && errFailure(result) == failure
+//@           && errUrl(result) == url && errCause(result) == err && errDescr(result) == ""   [C15]
+
+//@ func WrapWithDescr
+//@   ensures result != nil && fresh(result) && isVE(result) && errType(result) == errorType && errFailure(result) == failure
+//@           && errUrl(result) == url && errCause(result) == err && errDescr(result) == descr   [C15]
+
+//@ func (*ValidationError).Type
+//@   requires e != nil
+//@   ensures result == e.errorType   [C15]
+//@ func (*ValidationError).Failure
+//@   requires e != nil
+//@   ensures result == e.failure   [C15]
+//@ func (*ValidationError).Url
+//@   requires e != nil
+//@   ensures result == e.url
+//@ func (*ValidationError).Description
+//@   requires e != nil
+//@   ensures result == e.descr
+//@ func (*ValidationError).Unwrap
+//@   requires e != nil
+//@   ensures result == e.cause
+//@ func (*ValidationError).Error
+//@   requires e != nil
+
+//@ func Type
+//@   ensures isVE(err) ==> result == errType(err)   [C15]
+//@ func Failure
+//@   ensures isVE(err) ==> result == errFailure(err)   [C15]
+//@ func Url
+//@   ensures isVE(err) ==> result == errUrl(err)
+//@ func Description
+//@   ensures isVE(err) ==> result == errDescr(err)
